@@ -1,10 +1,13 @@
 // Unit R: src/reader.rs — Reader<R>::{next, peek, eat_whitespace, read_digits, where_am_i}
 use vstd::prelude::*;
-use std::io::{Bytes, Read, Result};
+use std::io::{Bytes, Read, Result, BufReader};
+use std::fs::File;
+use std::path::PathBuf;
 
 verus! {
 
 //@@ include prelude/io.rs
+//@@ include prelude/io_open.rs
 pub mod u8s {
 use vstd::prelude::*;
 //@@ include prelude/u8std.rs
@@ -84,7 +87,36 @@ impl<R: Read> Reader<R> {
 //@@ header-from specs/reader/where_am_i.spec
 //@@ endfn
 
+// the private constructor: wraps the source WITHOUT reading from it; position 1:1
+//@@ fn reader.new = src/reader.rs :: impl<R: Read> Reader<R> :: fn new
+//@@ safety C14 C17
+//@@ ret r
+//@@ header
+        ensures r.fresh_over(source(reader), name), // @obl R.new.lazy : C14 C17
+//@@ endfn
+    // a reader that has looked at nothing yet: the whole source is still unread
+    pub open spec fn fresh_over(&self, src: Seq<Option<u8>>, name: Option<String>) -> bool {
+        self.wf() && self.cur() is None && !self.at_eof() && self.rest() == src && self.line() == 1 && self.col() == 1 && self.name() == name
+    }
 }
+
+// ---- the two ways go() opens its input (C14: opening reads NOTHING, so what is consumed is what next() consumes; C17: a file
+// and stdin are the same kind of byte source, named by the file name / not named)
+//@@ fn reader.from_std_in = src/reader.rs :: fn from_std_in
+//@@ safety C14 C17
+//@@ ret r
+//@@ header
+    ensures r.fresh_over(source(stdin), None), // @obl R.from_std_in.lazy : C14 C17
+//@@ endfn
+//@@ fn reader.from_file = src/reader.rs :: fn from_file
+//@@ safety C14 C17
+//@@ ret r
+//@@ rewrite to_string_fn
+//@@ body-start
+    broadcast use vopen::ax_path_of_ref;
+//@@ header
+    ensures r is Ok ==> r->Ok_0.fresh_over(file_source(*file_name), path_name(*file_name)), // @obl R.from_file.lazy : C14 C17
+//@@ endfn
 
 } // verus!
 fn main() {}
